@@ -39,7 +39,7 @@ void VERIF_ENTRY(void);
 #define VERIF_ALLOC_BOUND(n) 1
 #endif
 #ifndef VERIF_MAX_ALLOC
-#define VERIF_MAX_ALLOC 256
+#define VERIF_MAX_ALLOC 32
 #endif
 #define g_verif_input_len verif_input_len
 #define g_verif_alloc_total verif_alloc_total
